@@ -440,6 +440,43 @@ theorem mount_delegate_err_iff (mounts : List Str) (p : Str) (e : Err) :
     simp only [reduceCtorEq, and_false, iff_false]
     split <;> simp [pure_eq]
 
+/-! ### `MountFS._delegate` as coded (invalid characters refused first, /repo 48e26ed) -/
+
+/-- whatever the coded `_delegate` answers, the unchecked one answers too: `mount_delegate_inside` and
+`mount_default_raw` therefore hold for the code as written -/
+theorem mountChk_ok_imp (inv : List Char) (mounts : List Str) (p : Str) (r : Option Nat × Str)
+    (h : mountDelegateChk inv mounts p = .ok r) : mountDelegate mounts p = .ok r := by
+  simp only [mountDelegateChk] at h
+  by_cases hb : p.any (fun c => inv.contains c) = true
+  · rw [if_pos hb] at h; cases h
+  · rw [if_neg hb] at h; exact h
+
+/-- the coded `_delegate` hands a mounted filesystem the resolved path minus the mount point's components —
+relative, clean, first matching mount — and no character of `inv` occurs in the path it was given -/
+theorem mount_delegate_chk_inside (inv : List Char) (ms : List (List Str)) (hm : ∀ m ∈ ms, Clean m) (p : Str)
+    (i : Nat) (r : Str) (h : mountDelegateChk inv (ms.map mountStr) p = .ok (some i, r)) :
+    (∀ c ∈ p, c ∉ inv) ∧
+    ∃ m cs, ms[i]? = some m ∧ Clean cs ∧ resolve (splitSlash p) = some (m ++ cs) ∧
+      r = joinSlash cs ∧ ∀ j, j < i → ∀ m', ms[j]? = some m' → ¬ m' <+: m ++ cs := by
+  refine ⟨?_, mount_delegate_inside ms hm p i r (mountChk_ok_imp inv _ p _ h)⟩
+  intro c hc hi
+  have : p.any (fun c => inv.contains c) = true := by
+    rw [List.any_eq_true]; exact ⟨c, hc, by simpa using hi⟩
+  simp only [mountDelegateChk] at h
+  rw [if_pos this] at h; cases h
+
+/-- a path carrying one of the MountFS's invalid characters reaches NO filesystem — mounted or default —, even
+when `normpath` would have removed the character (`"foo/x\0/../a"`) -/
+theorem mount_delegate_chk_invalid (inv : List Char) (mounts : List Str) (p : Str) (c : Char)
+    (hc : c ∈ p) (hi : c ∈ inv) : mountDelegateChk inv mounts p = .err .InvalidCharsInPath := by
+  have : p.any (fun c => inv.contains c) = true := by
+    rw [List.any_eq_true]; exact ⟨c, hc, by simpa using hi⟩
+  simp only [mountDelegateChk]
+  rw [if_pos this]
+
+example : mountDelegateChk ['\x00'] ["/foo/".toList] "foo/x\x00/../a".toList = .err .InvalidCharsInPath := by decide
+example : mountDelegateChk ['\x00'] ["/foo/".toList] "foo/x/../a".toList = .ok (some 0, "a".toList) := by decide
+
 /-! ## read-only archives: hostile member names -/
 
 theorem tarKey_clean (name k : Str) (h : tarKey name = some k) :
